@@ -869,7 +869,7 @@ class Prop:
         if c['k'] == 3: return 'run_nlri_case %s' % nlri_to_coq(c['n'])
         if c['k'] == 4: return '(VL [])'     # the wide part has no model: judged by the oracle only
         if c['k'] == 8: return xnlri_to_coq(c) if xnlri_modelled(c) else '(VL [])'
-        if c['k'] == 9: return '(VL [])'
+        if c['k'] == 9: return c17typed.typed_to_coq(c)
         if c['k'] == 6: return 'run_api_evpn_case %s' % api_evpn_to_coq(c['api'])
         if c['k'] == 7: return 'run_evpn_case %s' % evpn_to_coq(c['e'])
         if c['k'] == 5:
@@ -946,7 +946,9 @@ class Prop:
         return coqrun.eval_terms('C17', pre, [self.case_to_coq(c) for c in cases])
 
     def canon(self, case, obs):
-        if case['k'] in (4, 9) or (case['k'] == 8 and not xnlri_modelled(case)):
+        if case['k'] == 9:
+            return c17typed.typed_canon(case, obs)
+        if case['k'] == 4 or (case['k'] == 8 and not xnlri_modelled(case)):
             return []       # not modelled (differential testing of the real round trip only)
         if case['k'] == 8 and len(obs) == 6:
             return [obs[0], obs[2], obs[3], obs[4], obs[5]]     # accepted, wire bytes, decodes back, relisted, API form listed
